@@ -83,6 +83,12 @@ def gen_value(rng):
     nrows = rng.choice([0, 1, 2, 3])
     for c in rng.sample(["x", "y", "z", "w"], rng.randint(1, 3)):
         t = rng.randrange(4)
+        if nrows >= 2 and rng.random() < 0.35:
+            # cells that are == to each other but of DIFFERENT types (1 == 1.0 == True, 0 == 0.0 == False): every cell must be
+            # checked on its own type, an earlier equal cell of a declared type excuses nothing
+            pool = rng.choice([[1, 1.0, True], [0, 0.0, False], [1, 1.0, True, 2, 2.0]])
+            cols[c] = [rng.choice(pool) for _ in range(nrows)]
+            continue
         cols[c] = [None if rng.random() < 0.2 else rng.choice(EXAMPLES[t if rng.random() < 0.8 else rng.randrange(4)]) for _ in range(nrows)]
     return ("frame", cols)
 
